@@ -284,7 +284,7 @@ MUTANTS = [
       (PE, """        # Mark pending tasks as failed. Items are removed one by one as the""",
        """        self.kill_workers(reason="broken executor")
         # Mark pending tasks as failed. Items are removed one by one as the""")),
-    M("order-no-kill", ["C02", "C20"], ["R-BROKEN-ORDER", "R-LEAK"],
+    M("order-no-kill", ["C02"], ["R-BROKEN-ORDER"],
       (PE, """        self.kill_workers(reason="broken executor")
 
         # clean up resources""", """        # clean up resources""")),
@@ -698,6 +698,780 @@ MUTANTS = [
             except OSError:
                 r = call_item()
         except BaseException as e:""")),
+    # ------------------------------------------------------------- R-KILL-PATH
+    M("killpath-factory-drops-kill-workers", ["C06"], ["R-KILL-PATH"],
+      (RE, """                    executor.shutdown(wait=True, kill_workers=kill_workers)""", """                    executor.shutdown(wait=True)""")),
+    M("killpath-manager-resets-flag", ["C06"], ["R-KILL-PATH"],
+      (PE, """            self.shutdown = True
+            if kill_workers is not None:
+                self.kill_workers = kill_workers""", """            self.shutdown = True
+            self.kill_workers = bool(kill_workers)""")),
+    M("killpath-kill-before-failing", ["C06"], ["R-KILL-PATH"],
+      (PE, """        if self.executor_flags.kill_workers:
+            while self.pending_work_items:""", """        if self.executor_flags.kill_workers:
+            self.kill_workers(reason="executor shutting down")
+            while self.pending_work_items:""")),
+    M("killpath-pending-not-failed", ["C06", "C01"], ["R-KILL-PATH", "R-MGR-EXIT", "R-DROP-RESOLVES"],
+      (PE, """            while self.pending_work_items:
+                _, work_item = self.pending_work_items.popitem()
+                work_item.future.set_exception(
+                    ShutdownExecutorError(
+                        "The Executor was shutdown with `kill_workers=True` "
+                        "before this job could complete."
+                    )
+                )
+                del work_item
+""", """            self.pending_work_items.clear()
+""")),
+    M("killpath-wrong-exception", ["C06"], ["R-KILL-PATH"],
+      (PE, """                work_item.future.set_exception(
+                    ShutdownExecutorError(
+                        "The Executor was shutdown with `kill_workers=True` \"""", """                work_item.future.set_exception(
+                    RuntimeError(
+                        "The Executor was shutdown with `kill_workers=True` \"""")),
+    # ------------------------------------------------------------- R-SINGLETON
+    M("singleton-read-outside-lock", ["C09"], ["R-SINGLETON"],
+      (RE, """        with _executor_lock:
+            global _executor, _executor_kwargs
+            executor = _executor
+""", """        global _executor, _executor_kwargs
+        executor = _executor
+        with _executor_lock:
+""")),
+    M("singleton-replace-ignores-shutdown", ["C09"], ["R-SINGLETON"],
+      (RE, """                if (
+                    executor._flags.broken
+                    or executor._flags.shutdown
+                    or not reuse
+                ):""", """                if (
+                    executor._flags.broken
+                    or not reuse
+                ):""")),
+    M("singleton-kwargs-omit-env", ["C09"], ["R-SINGLETON"],
+      (RE, """                initargs=initargs,
+                env=env,
+            )
+            if executor is None:""", """                initargs=initargs,
+            )
+            if executor is None:""")),
+    M("singleton-replacement-no-wait", ["C09"], ["R-SINGLETON"],
+      (RE, """                    executor.shutdown(wait=True, kill_workers=kill_workers)""", """                    executor.shutdown(wait=False, kill_workers=kill_workers)""")),
+    M("singleton-public-drops-initargs", ["C09"], ["R-SINGLETON"],
+      (RE, """        initializer=initializer,
+        initargs=initargs,
+        env=env,
+    )
+    return _executor""", """        initializer=initializer,
+        env=env,
+    )
+    return _executor""")),
+    M("singleton-stale-kwargs-stored", ["C09"], ["R-SINGLETON"],
+      (RE, """                executor_id = _get_next_executor_id()
+                _executor_kwargs = kwargs
+""", """                executor_id = _get_next_executor_id()
+""")),
+    M("singleton-reset-before-shutdown", ["C09"], ["R-SINGLETON"],
+      (RE, """                    executor.shutdown(wait=True, kill_workers=kill_workers)
+                    _executor = executor = _executor_kwargs = None""", """                    previous = executor
+                    _executor = executor = _executor_kwargs = None
+                    previous.shutdown(wait=True, kill_workers=kill_workers)""") if False else
+      (RE, """                    executor.shutdown(wait=True, kill_workers=kill_workers)
+                    _executor = executor = _executor_kwargs = None
+                    # Recursive call to build a new instance
+                    return cls.get_reusable_executor(
+                        max_workers=max_workers, **kwargs
+                    )""", """                    previous = executor
+                    _executor = executor = _executor_kwargs = None
+                    # Recursive call to build a new instance
+                    new = cls.get_reusable_executor(
+                        max_workers=max_workers, **kwargs
+                    )
+                    previous.shutdown(wait=True, kill_workers=kill_workers)
+                    return new""")),
+    M("singleton-reuse-without-resize", ["C09"], ["R-SINGLETON"],
+      (RE, """                    is_reused = True
+                    executor._resize(max_workers)""", """                    is_reused = True""")),
+    M("singleton-id-not-incremented", ["C09"], ["R-SINGLETON"],
+      (RE, """        executor_id = _next_executor_id
+        _next_executor_id += 1
+        return executor_id""", """        executor_id = _next_executor_id
+        _next_executor_id = executor_id
+        return executor_id""")),
+    M("singleton-rex-init-drops-timeout", ["C09"], ["R-SINGLETON"],
+      (RE, """            context=context,
+            timeout=timeout,
+            job_reducers=job_reducers,""", """            context=context,
+            job_reducers=job_reducers,""")),
+    # ---------------------------------------------------------------- R-RESIZE
+    M("resize-submit-without-lock", ["C10"], ["R-RESIZE"],
+      (RE, """        with self._submit_resize_lock:
+            return super().submit(fn, *args, **kwargs)""", """        return super().submit(fn, *args, **kwargs)""")),
+    M("resize-no-wait-for-jobs", ["C10"], ["R-RESIZE"],
+      (RE, """            self._wait_job_completion()
+
+            # Some process might have returned""", """            # Some process might have returned""")),
+    M("resize-max-workers-after-sentinels", ["C10"], ["R-RESIZE"],
+      (RE, """                self._max_workers = max_workers
+                for _ in range(max_workers, nb_children_alive):
+                    self._call_queue.put(None)""", """                for _ in range(max_workers, nb_children_alive):
+                    self._call_queue.put(None)
+            self._max_workers = max_workers""")),
+    M("resize-sentinel-count-from-table-size", ["C10"], ["R-RESIZE"],
+      (RE, """                for _ in range(max_workers, nb_children_alive):""", """                for _ in range(max_workers, len(processes) + 1):""")),
+    M("resize-kills-surplus", ["C10"], ["R-RESIZE"],
+      (RE, """                for _ in range(max_workers, nb_children_alive):
+                    self._call_queue.put(None)""", """                for p in processes[max_workers:]:
+                    p.terminate()""")),
+    # -------------------------------------------------------------- R-RT-TABLE
+    M("rt-unlink-at-or-below-zero", ["C11"], ["R-RT-TABLE"],
+      (RT, """                        if registry[rtype][name] == 0:""", """                        if registry[rtype][name] <= 1:""")),
+    M("rt-unregister-no-delete", ["C11", "C13"], ["R-RT-TABLE"],
+      (RT, """                        del registry[rtype][name]
+                        if verbose:
+                            util.debug(
+                                f"[ResourceTracker] unregister {name} {rtype}: \"""", """                        registry[rtype][name] -= 1
+                        if verbose:
+                            util.debug(
+                                f"[ResourceTracker] unregister {name} {rtype}: \"""")),
+    M("rt-register-resets-count", ["C11"], ["R-RT-TABLE"],
+      (RT, """                        if name not in registry[rtype]:
+                            registry[rtype][name] = 1
+                        else:
+                            registry[rtype][name] += 1""", """                        registry[rtype][name] = 1""")),
+    M("rt-decrement-after-test", ["C11"], ["R-RT-TABLE"],
+      (RT, """                        registry[rtype][name] -= 1
+                        if verbose:
+                            util.debug(
+                                "[ResourceTracker] decremented refcount of \"""", """                        if verbose:
+                            util.debug(
+                                "[ResourceTracker] decremented refcount of \""""),
+      (RT, """                                    f"resource_tracker: {name}: {e!r}"
+                                )
+""", """                                    f"resource_tracker: {name}: {e!r}"
+                                )
+                        else:
+                            registry[rtype][name] -= 1
+""")),
+    M("rt-cleanup-on-unregister", ["C11"], ["R-RT-TABLE"],
+      (RT, """                        del registry[rtype][name]
+                        if verbose:
+                            util.debug(
+                                f"[ResourceTracker] unregister {name} {rtype}: \"""", """                        del registry[rtype][name]
+                        _CLEANUP_FUNCS[rtype](name)
+                        if verbose:
+                            util.debug(
+                                f"[ResourceTracker] unregister {name} {rtype}: \"""")),
+    M("rt-no-delete-at-zero", ["C11"], ["R-RT-TABLE"],
+      (RT, """                        if registry[rtype][name] == 0:
+                            del registry[rtype][name]
+                            try:""", """                        if registry[rtype][name] == 0:
+                            try:""")),
+    M("rt-unknown-type-checked-late", ["C11"], ["R-RT-TABLE"],
+      (RT, """                    if rtype not in _CLEANUP_FUNCS:
+                        raise ValueError(""", """                    if rtype not in _CLEANUP_FUNCS and cmd != "REGISTER":
+                        raise ValueError(""")),
+    # --------------------------------------------------------------- R-RT-LOOP
+    M("rt-barrier-except-exception", ["C11", "C12"], ["R-RT-LOOP"],
+      (RT, """                except BaseException:
+                    try:
+                        sys.excepthook(*sys.exc_info())""", """                except Exception:
+                    try:
+                        sys.excepthook(*sys.exc_info())""")),
+    M("rt-barrier-breaks", ["C11", "C12"], ["R-RT-LOOP"],
+      (RT, """                    except BaseException:
+                        pass
+    finally:""", """                    except BaseException:
+                        break
+    finally:""")),
+    M("rt-folders-first", ["C11", "C13"], ["R-RT-LOOP"],
+      (RT, """        for rtype, rtype_registry in registry.items():
+            if rtype == "folder":
+                continue
+            else:
+                _unlink_resources(rtype_registry, rtype)
+""", """        if "folder" in registry:
+            _unlink_resources(registry["folder"], "folder")
+        for rtype, rtype_registry in registry.items():
+            if rtype == "folder":
+                continue
+            else:
+                _unlink_resources(rtype_registry, rtype)
+"""),
+      (RT, """        # other resource types.
+        if "folder" in registry:
+            _unlink_resources(registry["folder"], "folder")
+""", """        # other resource types.
+""")),
+    M("rt-sweep-not-in-finally", ["C11", "C13"], ["R-RT-LOOP"],
+      (RT, """    try:
+        # keep track of registered/unregistered resources
+        if sys.platform == "win32":""", """    if True:
+        # keep track of registered/unregistered resources
+        if sys.platform == "win32":"""),
+      (RT, """                        pass
+    finally:
+        # all processes have terminated; cleanup any remaining resources""", """                        pass
+    if True:
+        # all processes have terminated; cleanup any remaining resources""")),
+    M("rt-stop-on-blank-line", ["C11", "C12"], ["R-RT-LOOP"],
+      (RT, """                if line == b"":  # EOF
+                    break""", """                if not line.strip():  # EOF
+                    break""")),
+    # -------------------------------------------------------------- R-RT-PROTO
+    M("rt-name-truncated-at-colon", ["C11"], ["R-RT-PROTO"],
+      (RT, """                        ":".join(splitted[1:-1]),""", """                        splitted[1],""")),
+    M("rt-maybe-unlink-renamed-client-only", ["C11"], ["R-RT-PROTO"],
+      (RT, """        self._send("MAYBE_UNLINK", name, rtype)""", """        self._send("UNLINK", name, rtype)""")),
+    M("rt-semlock-cleanup-missing", ["C11", "C13"], ["R-RT-PROTO"],
+      (RT, """if os.name == "posix":
+    _CLEANUP_FUNCS["semlock"] = sem_unlink""", """if os.name == "nt":
+    _CLEANUP_FUNCS["semlock"] = sem_unlink""")),
+    # ---------------------------------------------------------- R-TRACKER-SHIP
+    M("ship-read-before-ensure-running", ["C12"], ["R-TRACKER-SHIP"],
+      (SP, """    _resource_tracker.ensure_running()
+    d["tracker_args"] = {"pid": _resource_tracker._pid}""", """    d["tracker_args"] = {"pid": _resource_tracker._pid}
+    _resource_tracker.ensure_running()""")),
+    M("ship-fd-key-mismatch", ["C12"], ["R-TRACKER-SHIP"],
+      (SP, """        d["tracker_args"]["fd"] = _resource_tracker._fd""", """        d["tracker_args"]["fh"] = _resource_tracker._fd""")),
+    M("ship-tracker-fd-not-kept", ["C12"], ["R-TRACKER-SHIP"],
+      (PP, """            self._fds += [child_r, child_w, tracker_fd]""", """            self._fds += [child_r, child_w]""")),
+    M("ship-pid-fd-swapped-in-prepare", ["C12"], ["R-TRACKER-SHIP"],
+      (SP, """        _resource_tracker._pid = data["tracker_args"]["pid"]""", """        _resource_tracker._pid = data["tracker_args"]["fd"]""")),
+    # ------------------------------------------------------------------- R-SIG
+    M("sig-sigterm-not-ignored", ["C12"], ["R-SIG"],
+      (RT, """    signal.signal(signal.SIGTERM, signal.SIG_IGN)
+""", "")),
+    M("sig-unblock-not-in-finally", ["C12"], ["R-SIG"],
+      (RT, """                    pid = spawnv_passfds(exe, args, fds_to_pass)
+                finally:
+                    if _HAVE_SIGMASK:""", """                    pid = spawnv_passfds(exe, args, fds_to_pass)
+                    if _HAVE_SIGMASK:"""),
+      (RT, """                try:
+                    if _HAVE_SIGMASK:
+                        signal.pthread_sigmask(
+                            signal.SIG_BLOCK, _IGNORED_SIGNALS
+                        )""", """                if True:
+                    if _HAVE_SIGMASK:
+                        signal.pthread_sigmask(
+                            signal.SIG_BLOCK, _IGNORED_SIGNALS
+                        )""")),
+    M("sig-block-after-spawn", ["C12"], ["R-SIG"],
+      (RT, """                    if _HAVE_SIGMASK:
+                        signal.pthread_sigmask(
+                            signal.SIG_BLOCK, _IGNORED_SIGNALS
+                        )
+                    pid = spawnv_passfds(exe, args, fds_to_pass)""", """                    pid = spawnv_passfds(exe, args, fds_to_pass)
+                    if _HAVE_SIGMASK:
+                        signal.pthread_sigmask(
+                            signal.SIG_BLOCK, _IGNORED_SIGNALS
+                        )""")),
+    M("sig-unmask-before-ignore", ["C12"], ["R-SIG"],
+      (RT, """    signal.signal(signal.SIGINT, signal.SIG_IGN)
+    signal.signal(signal.SIGTERM, signal.SIG_IGN)
+
+    if _HAVE_SIGMASK:
+        signal.pthread_sigmask(signal.SIG_UNBLOCK, _IGNORED_SIGNALS)
+""", """    if _HAVE_SIGMASK:
+        signal.pthread_sigmask(signal.SIG_UNBLOCK, _IGNORED_SIGNALS)
+
+    signal.signal(signal.SIGINT, signal.SIG_IGN)
+    signal.signal(signal.SIGTERM, signal.SIG_IGN)
+""")),
+    # -------------------------------------------------------------- R-RELAUNCH
+    M("relaunch-dead-tracker-returns", ["C12"], ["R-RELAUNCH"],
+      (RT, """                    "leak."
+                )
+""", """                    "leak."
+                )
+                return
+""")),
+    M("relaunch-fd-installed-before-spawn", ["C12"], ["R-RELAUNCH"],
+      (RT, """            cmd = f"from {main.__module__} import main; main({r}, {VERBOSE})"
+            try:""", """            cmd = f"from {main.__module__} import main; main({r}, {VERBOSE})"
+            self._fd = w
+            try:""")),
+    M("relaunch-read-end-not-closed", ["C12", "C20"], ["R-RELAUNCH"],
+      (RT, """                else:
+                    os.close(r)
+
+
+_resource_tracker""", """                else:
+                    pass
+
+
+_resource_tracker""")),
+    M("relaunch-without-lock", ["C12"], ["R-RELAUNCH"],
+      (RT, """        with self._lock:
+            if self._fd is not None:
+                # resource tracker was launched before, is it still running?""", """        if True:
+            if self._fd is not None:
+                # resource tracker was launched before, is it still running?""")),
+    M("relaunch-maybe-unlink-no-ensure", ["C12"], ["R-RELAUNCH"],
+      (RT, """        self.ensure_running()
+        self._send("MAYBE_UNLINK", name, rtype)""", """        self._send("MAYBE_UNLINK", name, rtype)""")),
+    # -------------------------------------------------------------- R-SEM-LIFE
+    M("sem-register-other-name", ["C13"], ["R-SEM-LIFE"],
+      (SY, """        resource_tracker.register(self._semlock.name, "semlock")""", """        resource_tracker.register(self.name, "semlock")""")),
+    M("sem-unregister-outside-finally", ["C13"], ["R-SEM-LIFE"],
+      (SY, """        try:
+            sem_unlink(name)
+        except FileNotFoundError:
+            # Already unlinked, possibly by user code: ignore and make sure to
+            # unregister the semaphore from the resource tracker.
+            pass
+        finally:
+            resource_tracker.unregister(name, "semlock")""", """        try:
+            sem_unlink(name)
+        except FileNotFoundError:
+            # Already unlinked, possibly by user code: ignore and make sure to
+            # unregister the semaphore from the resource tracker.
+            return
+        resource_tracker.unregister(name, "semlock")""")),
+    M("sem-register-in-setstate", ["C13"], ["R-SEM-LIFE"],
+      (SY, """        self._semlock = _SemLock._rebuild(*state)""", """        self._semlock = _SemLock._rebuild(*state)
+        resource_tracker.register(self._semlock.name, "semlock")""")),
+    M("sem-no-finalizer", ["C13"], ["R-SEM-LIFE"],
+      (SY, """        util.Finalize(
+            self, SemLock._cleanup, (self._semlock.name,), exitpriority=0
+        )
+""", "")),
+    M("sem-register-only-for-generated-names", ["C13"], ["R-SEM-LIFE"],
+      (SY, """        resource_tracker.register(self._semlock.name, "semlock")""", """        if name is None:
+            resource_tracker.register(self._semlock.name, "semlock")""")),
+    M("sem-lock-bypasses-semlock-init", ["C13", "C14"], ["R-SEM-LIFE", "R-SEM-TABLE"],
+      (SY, """class Lock(SemLock):
+    def __init__(self):
+        super().__init__(SEMAPHORE, 1, 1)""", """class Lock(SemLock):
+    def __init__(self):
+        self._semlock = _SemLock(SEMAPHORE, 1, 1, SemLock._make_name(), False)
+        self.name = None
+        self._make_methods()""")),
+    # ------------------------------------------------------------ R-CTX-FACTORY
+    M("ctx-lock-from-multiprocessing", ["C13", "C14"], ["R-CTX-FACTORY"],
+      (CX, """            from .synchronize import Lock
+
+            return Lock()""", """            from multiprocessing.synchronize import Lock
+
+            return Lock(ctx=self.get_context())""")),
+    # -------------------------------------------------------------- R-SEM-TABLE
+    M("table-lock-unbounded", ["C14"], ["R-SEM-TABLE"],
+      (SY, """        super().__init__(SEMAPHORE, 1, 1)""", """        super().__init__(SEMAPHORE, 1, SEM_VALUE_MAX)""")),
+    M("table-rlock-not-recursive", ["C14"], ["R-SEM-TABLE"],
+      (SY, """        super().__init__(RECURSIVE_MUTEX, 1, 1)""", """        super().__init__(SEMAPHORE, 1, 1)""")),
+    M("table-bounded-semaphore-unbounded", ["C14"], ["R-SEM-TABLE"],
+      (SY, """        SemLock.__init__(self, SEMAPHORE, value, value)""", """        SemLock.__init__(self, SEMAPHORE, value, SEM_VALUE_MAX)""")),
+    M("table-kinds-swapped", ["C14"], ["R-SEM-TABLE"],
+      (SY, """RECURSIVE_MUTEX, SEMAPHORE = range(2)""", """SEMAPHORE, RECURSIVE_MUTEX = range(2)""")),
+    # -------------------------------------------------------------- R-STATE-SYM
+    M("state-condition-swapped", ["C14"], ["R-STATE-SYM"],
+      (SY, """        (
+            self._lock,
+            self._sleeping_count,
+            self._woken_count,
+            self._wait_semaphore,
+        ) = state""", """        (
+            self._lock,
+            self._woken_count,
+            self._sleeping_count,
+            self._wait_semaphore,
+        ) = state""")),
+    M("state-queue-drops-reducers", ["C15"], ["R-STATE-SYM"],
+      (QU, """            self._reader,
+            self._writer,
+            self._reducers,
+            self._rlock,
+            self._wlock,
+        )
+
+    def __setstate__(self, state):
+        (
+            self._reader,
+            self._writer,
+            self._reducers,
+            self._rlock,
+            self._wlock,
+        ) = state""", """            self._reader,
+            self._writer,
+            self._rlock,
+            self._wlock,
+        )
+
+    def __setstate__(self, state):
+        (
+            self._reader,
+            self._writer,
+            self._rlock,
+            self._wlock,
+        ) = state
+        self._reducers = None""")),
+    # -------------------------------------------------------------- R-COND-PAIR
+    M("cond-woken-release-outside-finally", ["C14"], ["R-COND-PAIR"],
+      (SY, """        try:
+            # wait for notification or timeout
+            return self._wait_semaphore.acquire(True, timeout)
+        finally:
+            # indicate that this thread has woken
+            self._woken_count.release()
+
+            # reacquire lock""", """        # indicate that this thread has woken
+        try:
+            # wait for notification or timeout
+            res = self._wait_semaphore.acquire(True, timeout)
+            self._woken_count.release()
+            return res
+        finally:
+            # reacquire lock""")),
+    M("cond-lock-released-before-sleeping", ["C14"], ["R-COND-PAIR"],
+      (SY, """        # indicate that this thread is going to sleep
+        self._sleeping_count.release()
+
+        # release lock
+        count = self._lock._semlock._count()
+        for _ in range(count):
+            self._lock.release()
+""", """        # release lock
+        count = self._lock._semlock._count()
+        for _ in range(count):
+            self._lock.release()
+
+        # indicate that this thread is going to sleep
+        self._sleeping_count.release()
+""")),
+    M("cond-reacquire-once", ["C14"], ["R-COND-PAIR"],
+      (SY, """            # reacquire lock
+            for _ in range(count):
+                self._lock.acquire()""", """            # reacquire lock
+            self._lock.acquire()""")),
+    M("cond-wait-returns-true", ["C14"], ["R-COND-PAIR"],
+      (SY, """            return self._wait_semaphore.acquire(True, timeout)""", """            self._wait_semaphore.acquire(True, timeout)
+            return True""")),
+    # ------------------------------------------------------------ R-COND-TOKENS
+    M("tokens-notify-no-rezero", ["C14"], ["R-COND-TOKENS"],
+      (SY, """            self._woken_count.acquire()  # wait for the sleeper to wake
+
+            # rezero _wait_semaphore in case a timeout just happened
+            self._wait_semaphore.acquire(False)""", """            self._woken_count.acquire()  # wait for the sleeper to wake""")),
+    M("tokens-notify-all-waits-one", ["C14"], ["R-COND-TOKENS"],
+      (SY, """            for _ in range(sleepers):
+                self._woken_count.acquire()  # wait for a sleeper to wake""", """            self._woken_count.acquire()  # wait for a sleeper to wake""")),
+    M("tokens-notify-wakes-without-sleeper", ["C14"], ["R-COND-TOKENS"],
+      (SY, """        if self._sleeping_count.acquire(False):  # try grabbing a sleeper
+            self._wait_semaphore.release()  # wake up one sleeper""", """        self._wait_semaphore.release()  # wake up one sleeper
+        if self._sleeping_count.acquire(False):  # try grabbing a sleeper""")),
+    M("tokens-drain-without-sleeper-acquire", ["C14"], ["R-COND-TOKENS"],
+      (SY, """        while self._woken_count.acquire(False):
+            res = self._sleeping_count.acquire(False)
+            assert res
+
+        if self._sleeping_count.acquire(False):  # try grabbing a sleeper""", """        while self._woken_count.acquire(False):
+            pass
+
+        if self._sleeping_count.acquire(False):  # try grabbing a sleeper""")),
+    # ----------------------------------------------------------- R-EVENT-LOCKED
+    M("event-set-notifies-one", ["C14"], ["R-EVENT-LOCKED"],
+      (SY, """            self._flag.release()
+            self._cond.notify_all()""", """            self._flag.release()
+            self._cond.notify()""")),
+    M("event-wait-returns-cond-result", ["C14"], ["R-EVENT-LOCKED"],
+      (SY, """            else:
+                self._cond.wait(timeout)
+
+            if self._flag.acquire(False):
+                self._flag.release()
+                return True
+            return False""", """            else:
+                return self._cond.wait(timeout)
+            return True""")),
+    M("event-is-set-outside-cond", ["C14"], ["R-EVENT-LOCKED"],
+      (SY, """    def is_set(self):
+        with self._cond:
+            if self._flag.acquire(False):
+                self._flag.release()
+                return True
+            return False""", """    def is_set(self):
+        if self._flag.acquire(False):
+            self._flag.release()
+            return True
+        return False""")),
+    M("event-set-double-release", ["C14"], ["R-EVENT-LOCKED"],
+      (SY, """            self._flag.acquire(False)
+            self._flag.release()
+            self._cond.notify_all()""", """            self._flag.release()
+            self._cond.notify_all()""")),
+    # ---------------------------------------------------------- R-PICKLER-FRESH
+    M("fresh-no-copy-of-class-table", ["C15"], ["R-PICKLER-FRESH"],
+      (RD, """                loky_dt = dict(self.dispatch_table)""", """                loky_dt = self.dispatch_table""")),
+    M("fresh-copyreg-not-copied", ["C15"], ["R-PICKLER-FRESH"],
+      (RD, """                loky_dt = copyreg.dispatch_table.copy()""", """                loky_dt = copyreg.dispatch_table""")),
+    M("fresh-register-before-install", ["C15"], ["R-PICKLER-FRESH"],
+      (RD, """            self._set_dispatch_table(loky_dt)
+
+            # Register the reducers
+            for type, reduce_func in reducers.items():
+                self.register(type, reduce_func)""", """            # Register the reducers
+            for type, reduce_func in reducers.items():
+                self.register(type, reduce_func)
+            self._set_dispatch_table(loky_dt)""")),
+    M("fresh-user-reducers-into-module-table", ["C15"], ["R-PICKLER-FRESH", "R-REGISTER-WHO"],
+      (RD, """            for type, reduce_func in reducers.items():
+                self.register(type, reduce_func)""", """            for type, reduce_func in reducers.items():
+                _dispatch_table[type] = reduce_func
+                self.register(type, reduce_func)""")),
+    # ----------------------------------------------------------- R-REGISTER-WHO
+    M("who-register-at-runtime", ["C15"], ["R-REGISTER-WHO"],
+      (RD, """    buf = io.BytesIO()
+    dump(obj, buf, reducers=reducers, protocol=protocol)""", """    buf = io.BytesIO()
+    for type_, reduce_function in (reducers or {}).items():
+        register(type_, reduce_function)
+    dump(obj, buf, reducers=reducers, protocol=protocol)""")),
+    # ---------------------------------------------------------- R-REDUCERS-FLOW
+    M("flow-result-queue-gets-job-reducers", ["C15"], ["R-REDUCERS-FLOW"],
+      (PE, """        self._result_queue = SimpleQueue(
+            reducers=result_reducers, ctx=self._context
+        )""", """        self._result_queue = SimpleQueue(
+            reducers=job_reducers, ctx=self._context
+        )""")),
+    M("flow-no-default-for-result-reducers", ["C15"], ["R-REDUCERS-FLOW"],
+      (PE, """        if result_reducers is None:
+            result_reducers = job_reducers
+""", "")),
+    M("flow-simplequeue-put-ignores-reducers", ["C15"], ["R-REDUCERS-FLOW"],
+      (QU, """        obj = dumps(obj, reducers=self._reducers)""", """        obj = dumps(obj)""")),
+    M("flow-feeder-args-shifted", ["C15"], ["R-REDUCERS-FLOW"],
+      (QU, """                self._writer.close,
+                self._reducers,
+                self._ignore_epipe,""", """                self._writer.close,
+                self._ignore_epipe,
+                self._reducers,""")),
+    M("flow-dump-drops-reducers", ["C15"], ["R-REDUCERS-FLOW"],
+      (RD, """    _LokyPickler(file, reducers=reducers, protocol=protocol).dump(obj)""", """    _LokyPickler(file, protocol=protocol).dump(obj)""")),
+    # ----------------------------------------------------------- R-PICKLER-NAME
+    M("name-worker-does-not-reselect", ["C15"], ["R-PICKLER-NAME"],
+      (PE, """        set_loky_pickler(self.loky_pickler)
+        return self.fn(*self.args, **self.kwargs)""", """        return self.fn(*self.args, **self.kwargs)""")),
+    M("name-reselect-after-call", ["C15"], ["R-PICKLER-NAME"],
+      (PE, """        set_loky_pickler(self.loky_pickler)
+        return self.fn(*self.args, **self.kwargs)""", """        res = self.fn(*self.args, **self.kwargs)
+        set_loky_pickler(self.loky_pickler)
+        return res""")),
+    # ----------------------------------------------------------- R-REDUCE-ARITY
+    M("arity-partial-drops-keywords", ["C15"], ["R-REDUCE-ARITY"],
+      (RD, """    return _rebuild_partial, (p.func, p.args, p.keywords or {})""", """    return _rebuild_partial, (p.func, p.args)""")),
+    M("arity-partial-swapped", ["C15"], ["R-REDUCE-ARITY"],
+      (RD, """    return _rebuild_partial, (p.func, p.args, p.keywords or {})""", """    return _rebuild_partial, (p.func, p.keywords or {}, p.args)""")),
+    M("arity-rebuild-partial-ignores-keywords", ["C15"], ["R-REDUCE-ARITY"],
+      (RD, """    return functools.partial(func, *args, **keywords)""", """    return functools.partial(func, *args)""")),
+    # ---------------------------------------------------------- R-WRAP-DISPATCH
+    M("wrap-class-fixed-base", ["C16"], ["R-WRAP-DISPATCH"],
+      (CW, """        class CloudpickledClassWrapper(base_wrapper):""", """        class CloudpickledClassWrapper(CloudpickledObjectWrapper):""")),
+    M("wrap-always-callable", ["C16"], ["R-WRAP-DISPATCH"],
+      (CW, """    if callable(obj):
+        return CallableObjectWrapper(obj, keep_wrapper=keep_wrapper)
+    return CloudpickledObjectWrapper(obj, keep_wrapper=keep_wrapper)""", """    return CallableObjectWrapper(obj, keep_wrapper=keep_wrapper)""")),
+    M("wrap-reconstruct-bypasses-dispatch", ["C16"], ["R-WRAP-DISPATCH"],
+      (CW, """    obj = loads(_pickled_object)
+    return _wrap_non_picklable_objects(obj, keep_wrapper)""", """    obj = loads(_pickled_object)
+    return CloudpickledObjectWrapper(obj, keep_wrapper)""")),
+    # ------------------------------------------------------------ R-WRAP-FIELDS
+    M("wrap-class-wrapper-no-keep-flag", ["C16"], ["R-WRAP-FIELDS"],
+      (CW, """                self._obj = obj(*args, **kwargs)
+                self._keep_wrapper = keep_wrapper""", """                self._obj = obj(*args, **kwargs)""")),
+    M("wrap-getattr-excludes-wrong-names", ["C16"], ["R-WRAP-FIELDS"],
+      (CW, """        if attr not in ["_obj", "_keep_wrapper"]:""", """        if attr not in ["_obj"]:""")),
+    M("wrap-class-wrapper-drops-kwargs", ["C16"], ["R-WRAP-FIELDS"],
+      (CW, """                self._obj = obj(*args, **kwargs)""", """                self._obj = obj(*args)""")),
+    # ------------------------------------------------------------ R-WRAP-REDUCE
+    M("wrap-reduce-inverted", ["C16"], ["R-WRAP-REDUCE"],
+      (CW, """        if not self._keep_wrapper:
+            return loads, (_pickled_object,)""", """        if self._keep_wrapper:
+            return loads, (_pickled_object,)""")),
+    M("wrap-reduce-loses-flag", ["C16"], ["R-WRAP-REDUCE"],
+      (CW, """        return _reconstruct_wrapper, (_pickled_object, self._keep_wrapper)""", """        return _reconstruct_wrapper, (_pickled_object, False)""")),
+    # --------------------------------------------------------------- R-CPU-TERM
+    M("cpu-max-becomes-min", ["C17"], ["R-CPU-TERM"],
+      (CX, """    aggregate_cpu_count = max(min(os_cpu_count, cpu_count_user), 1)""", """    aggregate_cpu_count = min(min(os_cpu_count, cpu_count_user), 1)""")),
+    M("cpu-no-lower-bound", ["C17"], ["R-CPU-TERM"],
+      (CX, """    aggregate_cpu_count = max(min(os_cpu_count, cpu_count_user), 1)""", """    aggregate_cpu_count = min(os_cpu_count, cpu_count_user)""")),
+    M("cpu-env-leaf-dropped", ["C17"], ["R-CPU-TERM"],
+      (CX, """    return min(cpu_count_affinity, cpu_count_cgroup, cpu_count_loky)""", """    return min(cpu_count_affinity, cpu_count_cgroup)""")),
+    M("cpu-env-default-wrong", ["C17"], ["R-CPU-TERM"],
+      (CX, """    cpu_count_loky = int(os.environ.get("LOKY_MAX_CPU_COUNT", os_cpu_count))""", """    cpu_count_loky = int(os.environ.get("LOKY_MAX_CPU_COUNT", 1))""")),
+    M("cpu-os-none-not-handled", ["C17"], ["R-CPU-TERM"],
+      (CX, """    os_cpu_count = os.cpu_count() or 1""", """    os_cpu_count = os.cpu_count()""")),
+    # ------------------------------------------------------------ R-CPU-HELPERS
+    M("cpu-cgroup-floor", ["C17"], ["R-CPU-HELPERS"],
+      (CX, """            return math.ceil(cpu_quota_us / cpu_period_us)""", """            return math.floor(cpu_quota_us / cpu_period_us)""")),
+    M("cpu-cgroup-no-positive-guard", ["C17"], ["R-CPU-HELPERS"],
+      (CX, """        if cpu_quota_us > 0 and cpu_period_us > 0:""", """        if cpu_period_us > 0:""")),
+    M("cpu-cgroup-ratio-inverted", ["C17"], ["R-CPU-HELPERS"],
+      (CX, """            return math.ceil(cpu_quota_us / cpu_period_us)""", """            return math.ceil(cpu_period_us / cpu_quota_us)""")),
+    # ----------------------------------------------------------- R-CPU-PHYSICAL
+    M("cpu-physical-ignores-user-limit", ["C17"], ["R-CPU-PHYSICAL"],
+      (CX, """    if cpu_count_user < os_cpu_count:
+        # Respect user setting
+        return max(cpu_count_user, 1)
+""", "")),
+    M("cpu-physical-zero-accepted", ["C17"], ["R-CPU-PHYSICAL"],
+      (CX, """        if cpu_count_physical < 1:
+            raise ValueError(f"found {cpu_count_physical} physical cores < 1")
+""", "")),
+    M("cpu-physical-failure-not-cached", ["C17"], ["R-CPU-PHYSICAL"],
+      (CX, """    except Exception as e:
+        exception = e
+        cpu_count_physical = "not found"
+
+    # Put the result in cache
+    physical_cores_cache = cpu_count_physical
+""", """        # Put the result in cache
+        physical_cores_cache = cpu_count_physical
+    except Exception as e:
+        exception = e
+        cpu_count_physical = "not found"
+""")),
+    M("cpu-physical-user-limit-can-be-zero", ["C17"], ["R-CPU-PHYSICAL"],
+      (CX, """        return max(cpu_count_user, 1)""", """        return cpu_count_user""")),
+    # ----------------------------------------------------------- R-SPAWN-FRESH
+    M("fresh-close-fds-false", ["C18"], ["R-SPAWN-FRESH"],
+      (FE, """            True,  # close_fds""", """            False,  # close_fds""")),
+    M("fresh-env-overlay-first", ["C18"], ["R-SPAWN-FRESH"],
+      (FE, """    env = {**os.environ, **env}""", """    env = {**env, **os.environ}""")),
+    M("fresh-parent-end-in-keep-list", ["C18", "C20"], ["R-SPAWN-FRESH"],
+      (PP, """            self._fds += [child_r, child_w, tracker_fd]""", """            self._fds += [child_r, child_w, parent_r, tracker_fd]""")),
+    M("fresh-child-ends-not-closed", ["C18", "C20"], ["R-SPAWN-FRESH"],
+      (PP, """            for fd in (child_r, child_w):
+                if fd is not None:
+                    os.close(fd)""", """            for fd in (child_r,):
+                if fd is not None:
+                    os.close(fd)""")),
+    M("fresh-launch-drops-env", ["C18"], ["R-SPAWN-FRESH"],
+      (PP, """            pid = fork_exec(cmd_python, self._fds, env=process_obj.env)""", """            pid = fork_exec(cmd_python, self._fds)""")),
+    M("fresh-errpipe-leak", ["C18", "C20"], ["R-SPAWN-FRESH"],
+      (FE, """    finally:
+        os.close(errpipe_read)
+        os.close(errpipe_write)""", """    finally:
+        os.close(errpipe_write)""")),
+    # ------------------------------------------------------------ R-INIT-FIRST
+    M("init-after-first-get", ["C18"], ["R-INIT-FIRST"],
+      (PE, """    if initializer is not None:
+        try:
+            initializer(*initargs)
+        except BaseException:
+            LOGGER.critical("Exception in initializer:", exc_info=True)
+            # The parent will notice that the process stopped and
+            # mark the pool broken
+            return
+
+    # set the global _CURRENT_DEPTH mechanism to limit recursive call""", """    # set the global _CURRENT_DEPTH mechanism to limit recursive call"""),
+      (PE, """        if call_item is None:
+            # Notify queue management thread about worker shutdown""", """        if initializer is not None:
+            try:
+                initializer(*initargs)
+            except BaseException:
+                LOGGER.critical("Exception in initializer:", exc_info=True)
+                return
+            initializer = None
+        if call_item is None:
+            # Notify queue management thread about worker shutdown""")),
+    M("init-without-initargs", ["C18"], ["R-INIT-FIRST"],
+      (PE, """            initializer(*initargs)""", """            initializer()""")),
+    # ------------------------------------------------------------------ R-ARGS
+    M("args-queues-swapped", ["C18"], ["R-ARGS"],
+      (PE, """            args = (
+                self._call_queue,
+                self._result_queue,""", """            args = (
+                self._result_queue,
+                self._call_queue,""")),
+    M("args-depth-without-increment", ["C18", "C19"], ["R-ARGS"],
+      (PE, """                _CURRENT_DEPTH + 1,
+            )""", """                _CURRENT_DEPTH,
+            )""")),
+    M("args-respawn-without-initializer", ["C18"], ["R-ARGS"],
+      (PE, """            except TypeError:
+                p = self._context.Process(target=_process_worker, args=args)""", """            except TypeError:
+                p = self._context.Process(
+                    target=_process_worker,
+                    args=args[:2] + (None, ()) + args[4:],
+                )""")),
+    M("args-no-env", ["C18"], ["R-ARGS"],
+      (PE, """                p = self._context.Process(
+                    target=_process_worker, args=args, env=self._env
+                )""", """                p = self._context.Process(
+                    target=_process_worker, args=args, env=None
+                )""")),
+    # -------------------------------------------------------------- R-MAIN-FLAG
+    M("main-default-true", ["C18"], ["R-MAIN-FLAG"],
+      (PR, """        daemon=None,
+        init_main_module=False,
+        env=None,""", """        daemon=None,
+        init_main_module=True,
+        env=None,""")),
+    M("main-keys-shipped-unconditionally", ["C18"], ["R-MAIN-FLAG"],
+      (SP, """    if init_main_module:
+        main_module = sys.modules["__main__"]""", """    if True:
+        main_module = sys.modules["__main__"]""")),
+    # --------------------------------------------------------------- R-EXITCODE
+    M("exitcode-signal-positive", ["C18", "C02"], ["R-EXITCODE"],
+      (PP, """                    self.returncode = -os.WTERMSIG(sts)""", """                    self.returncode = os.WTERMSIG(sts)""")),
+    M("exitcode-recorded-for-any-pid", ["C18"], ["R-EXITCODE"],
+      (PP, """            if pid == self.pid:
+                if os.WIFSIGNALED(sts):""", """            if True:
+                if os.WIFSIGNALED(sts):""")),
+    M("exitcode-sentinel-not-closed", ["C18", "C20"], ["R-EXITCODE"],
+      (PP, """            if parent_r is not None:
+                util.Finalize(self, os.close, (parent_r,))""", """            pass""")),
+    # ------------------------------------------------------------------ R-DEPTH
+    M("depth-ge-becomes-gt", ["C19"], ["R-DEPTH"],
+      (PE, """    if 0 < MAX_DEPTH and _CURRENT_DEPTH + 1 > MAX_DEPTH:""", """    if 0 < MAX_DEPTH and _CURRENT_DEPTH > MAX_DEPTH:""")),
+    M("depth-zero-means-zero", ["C19"], ["R-DEPTH"],
+      (PE, """    if 0 < MAX_DEPTH and _CURRENT_DEPTH + 1 > MAX_DEPTH:""", """    if _CURRENT_DEPTH + 1 > MAX_DEPTH:""")),
+    M("depth-check-after-queues", ["C19"], ["R-DEPTH"],
+      (PE, """        _check_max_depth(self._context)
+
+        if result_reducers is None:""", """        if result_reducers is None:"""),
+      (PE, """        self._setup_queues(job_reducers, result_reducers)
+
+        mp.util.debug("ProcessPoolExecutor is setup")""", """        self._setup_queues(job_reducers, result_reducers)
+        _check_max_depth(self._context)
+
+        mp.util.debug("ProcessPoolExecutor is setup")""")),
+    M("depth-warns-instead-of-raising", ["C19"], ["R-DEPTH"],
+      (PE, """        raise LokyRecursionError(
+            "Could not spawn extra nested processes at depth superior to "
+            f"MAX_DEPTH={MAX_DEPTH}. If this is intendend, you can change \"""", """        warnings.warn(
+            "Could not spawn extra nested processes at depth superior to "
+            f"MAX_DEPTH={MAX_DEPTH}. If this is intendend, you can change \"""")),
+    M("depth-installed-after-first-task", ["C19"], ["R-DEPTH"],
+      (PE, """    global _CURRENT_DEPTH
+    _CURRENT_DEPTH = current_depth
+    _process_reference_size = None""", """    global _CURRENT_DEPTH
+    _process_reference_size = None"""),
+      (PE, """        # Free the resource as soon as possible, to avoid holding onto
+        # open files or shared memory that is not needed anymore
+        del call_item""", """        # Free the resource as soon as possible, to avoid holding onto
+        # open files or shared memory that is not needed anymore
+        del call_item
+        _CURRENT_DEPTH = current_depth""")),
+    M("depth-fork-guard-dropped", ["C19"], ["R-DEPTH"],
+      (PE, """    if context.get_start_method() == "fork" and _CURRENT_DEPTH > 0:""", """    if context.get_start_method() == "fork" and _CURRENT_DEPTH > 1:""")),
+    # ------------------------------------------------------------------- R-LEAK
+    M("leak-wakeup-close-one-end", ["C20"], ["R-LEAK"],
+      (PE, """            self._writer.close()
+            self._reader.close()""", """            self._writer.close()""")),
+    M("leak-simplequeue-close-one-end", ["C20"], ["R-LEAK"],
+      (QU, """    def close(self):
+        self._reader.close()
+        self._writer.close()""", """    def close(self):
+        self._reader.close()""")),
+    M("leak-broken-routine-no-join-internals", ["C20", "C02"], ["R-LEAK", "R-BROKEN-ORDER"],
+      (PE, """        # clean up resources
+        self.join_executor_internals()
+
+    def flag_executor_shutting_down(self):""", """    def flag_executor_shutting_down(self):""")),
+    M("leak-shutdown-keeps-queues", ["C20"], ["R-LEAK"],
+      (PE, """        self._call_queue = None
+        self._result_queue = None
+        self._processes_management_lock = None""", """        self._processes_management_lock = None""")),
+
 ]
 
 
